@@ -348,6 +348,38 @@ def _t21(x):
     return z3.BitVecVal(ord(x), 21) if isinstance(x, str) else x
 
 
+def known_codes(t):
+    """set of code points a character term can take when that is known syntactically (digit of a rendered number, output of
+    a lookup table), else None - saves a solver call for every comparison with a constant outside the set"""
+    try:
+        while z3.is_app_of(t, z3.Z3_OP_ZERO_EXT):
+            t = t.arg(0)
+        o = sym.DIGIT_ORIGIN.get(t.get_id())
+        if o is not None and o[3].eq(t):
+            return _DIGITS
+        org = sym.origin_of(t)
+        if org is not None:
+            return set(org[0].values)
+    except Exception:
+        pass
+    return None
+
+
+_DIGITS = set(range(48, 58))
+
+
+def _ceq(x, y):
+    """x == y for characters (1-char str or term): python bool when decided without the solver, else a z3 term"""
+    if isinstance(x, str) and isinstance(y, str):
+        return x == y
+    if isinstance(y, str) or isinstance(x, str):
+        t, c = (x, y) if isinstance(y, str) else (y, x)
+        k = known_codes(t)
+        if k is not None and ord(c) not in k:
+            return False
+    return _t21(x) == _t21(y)
+
+
 class SStr:
     """text of concrete length; each element a python 1-char str or a 21-bit z3 term with fixed UTF-8 width"""
     _sstr_ = True
@@ -423,11 +455,11 @@ class SStr:
                 return False
             terms = []
             for x, y in zip(self.c, o.c):
-                if isinstance(x, str) and isinstance(y, str):
-                    if x != y:
-                        return False
-                    continue
-                terms.append(_t21(x) == _t21(y))
+                e = _ceq(x, y)
+                if e is False:
+                    return False
+                if e is not True:
+                    terms.append(e)
             if not terms:
                 return True
             return SBool(z3.And(*terms))
@@ -445,11 +477,11 @@ class SStr:
         y = o.c[0]
         terms = []
         for x in self.c:
-            if isinstance(x, str) and isinstance(y, str):
-                if x == y:
-                    return True
-                continue
-            terms.append(_t21(x) == _t21(y))
+            e = _ceq(x, y)
+            if e is True:
+                return True
+            if e is not False:
+                terms.append(e)
         if not terms:
             return False
         return bool(SBool(z3.Or(*terms)))
@@ -579,22 +611,36 @@ class SStr:
     def _char_in(self, ch, chars):
         if isinstance(ch, str):
             return ch in chars
+        k = known_codes(ch)
+        if k is not None:
+            chars = [x for x in chars if ord(x) in k]
         return bool(SBool(z3.Or(*[ch == ord(x) for x in chars]))) if chars else False
 
-    def strip(self, chars=" \t\n\r\x0b\x0c"):
+    #: what str.strip()/split() treat as blank: every code point with str.isspace() (computed from this interpreter)
+    WS = "".join(chr(i) for i in range(0x110000) if chr(i).isspace())
+
+    def strip(self, chars=None):
         return SStr.lift(self.lstrip(chars)).rstrip(chars)
 
-    def lstrip(self, chars=" \t\n\r\x0b\x0c"):
+    def lstrip(self, chars=None):
+        chars = SStr.WS if chars is None else chars
         i = 0
         while i < len(self.c) and self._char_in(self.c[i], chars):
             i += 1
         return _norms(SStr(self.c[i:], self.wd[i:]))
 
-    def rstrip(self, chars=" \t\n\r\x0b\x0c"):
+    def rstrip(self, chars=None):
+        chars = SStr.WS if chars is None else chars
         j = len(self.c)
         while j > 0 and self._char_in(self.c[j - 1], chars):
             j -= 1
         return _norms(SStr(self.c[:j], self.wd[:j]))
+
+    def isalpha(self):
+        c = self.concrete()
+        if c is None:
+            raise Unsupported("isalpha of symbolic text")
+        return c.isalpha()
 
     def isdigit(self):
         """ASCII digits only are modelled; a symbolic non-ASCII character makes the path Unsupported"""
